@@ -205,7 +205,7 @@ func (w *World) SetupProvider(pr *Probes) {
 		genAccs = append(genAccs, authtypes.NewBaseAccount(a.Addr, a.Priv.PubKey(), a.AccNum, 0))
 		coins := sdk.NewCoins(sdk.NewCoin(BondDenom, math.NewInt(1_000_000_000_000_000)))
 		if a.Name == "faucet" {
-			coins = coins.Add(sdk.NewCoin(RewardDenom, math.NewIntWithDecimal(1, 24)))
+			coins = coins.Add(sdk.NewCoin(RewardDenom, math.NewIntWithDecimal(1, 24)), sdk.NewCoin(RewardDenom2, math.NewIntWithDecimal(1, 24)))
 		}
 		balances = append(balances, banktypes.Balance{Address: a.Addr.String(), Coins: coins})
 	}
